@@ -34,6 +34,7 @@ def gen_cases(tier, seed):
     for net in NETBASE:
         for t in TYPES:
             yield "wif", {"net": net, "type": t, "salt": rng.getrandbits(40), "reps": 6 if q else 60}
+            yield "wif", {"net": net, "type": t, "salt": rng.getrandbits(40), "reps": len(SUFFIX_VALUES), "fixed_suffixes": True}
     for i in range(40 if q else 600):
         yield "wif_corrupt", {"salt": rng.getrandbits(40)}
     for i in range(3 if q else 30):
@@ -49,15 +50,26 @@ def gen_cases(tier, seed):
         yield "pem_public", {"k": hex(rng.randrange(1, N)), "comp": i % 2 == 0, "edge": ["trail00", "trail00", "lead00", "lead00", "trailff", "trailff"][i % 6]}
     for i in range(2 if q else 8):
         yield "pem_public", {"k": hex(rng.randrange(1, N)), "comp": i % 2 == 0, "edge": "trail0000"}
+    # private keys whose bytes look like the container's own framing (an ASN.1 tag and a length that fits): what a parser
+    # that "recognises" nested structures mis-reads
+    for tag in (0x30, 0x31, 0x02, 0x03, 0x04, 0x05, 0x06, 0x0C, 0x13, 0xA0, 0xA1):
+        yield "pem_private_value", {"k": (bytes([tag, 0x1E]) + rand_bytes(rng, 30)).hex()}
+    yield "pem_private_value", {"k": (bytes.fromhex("301e020101041900") + rand_bytes(rng, 24)).hex()}
+    yield "pem_private_value", {"k": (bytes.fromhex("301e0201010419") + rand_bytes(rng, 25)).hex()}
+    yield "pem_private_value", {"k": (bytes.fromhex("3081") + rand_bytes(rng, 30)).hex()}
+    yield "pem_private_value", {"k": (rand_bytes(rng, 28) + bytes.fromhex("a00706052b")).hex()[:64]}
     # private keys with trailing zero bytes (leading ones are the lz classes above)
     for tz in (1, 2, 3, 8):
         for rep in range(2 if q else 10):
             yield "pem_private_value", {"k": hex(((rng.getrandbits(8 * (32 - tz) - 8 * (rep % 2)) | 1) << (8 * tz)) % N or 1)}
 
 
+SUFFIX_VALUES = [b"\x01", b"\x00", b"", b"\x01\x01", b"\x80", b"\xff", b"\x01\x00", b"\x00\x01"]
+
+
 def required(tier):
     return {"sec1.rt": 150, "sec1.cand": 3000, "sec1.cand.accept": 100, "sec1.class.len65_prefix02": 50, "sec1.class.offcurve": 50,
-            "sec1.class.x_ge_p": 50, "sec1.class.hybrid": 50, "sec1.class.coord_plus_p": 100, "sec1.class.offcurve_pseudo_root": 50, "wif.rt": 140, "wif.corrupt": 500, "wif.unknown_version": 100,
+            "sec1.class.x_ge_p": 50, "sec1.class.hybrid": 50, "sec1.class.coord_plus_p": 100, "sec1.class.offcurve_pseudo_root": 50, "wif.rt": 140, "wif.fixed_suffix": 150, "wif.corrupt": 500, "wif.unknown_version": 100,
             "wif.badkey_refused": 10, "privkey.badkey_refused.pem_encode_key": 8, "privkey.badkey_refused.compute_point": 8, "pem.priv": 32, "pem.priv.ossl_reads": 32, "pem.priv.lib_reads_ossl": 32, "pem.pub": 100, "pem.pub.edge.trail00": 6, "pem.pub.edge.lead00": 6,
             "pem.pub.ossl_reads": 100, "pem.pub.lib_reads_ossl": 100, "cli.pubkey": 150, "cli.pubkey_bad": 300, "cli.wif": 20}
 
@@ -209,6 +221,10 @@ def run_case(kind, params, ctx):
         for rep in range(params["reps"]):
             k = rng.choice(keys_boundary()) if rep % 3 == 0 else rng.randrange(1, N)
             suffix = rand_bytes(rng, [0, 1, 22, 34, 71, 120][rep % 6])
+            if rep < len(SUFFIX_VALUES) and params.get("fixed_suffixes"):
+                # the suffix VALUES that mean something to wallet software (01 = "compressed" marker) for every (network, type)
+                suffix = SUFFIX_VALUES[rep]
+                ctx.count("wif.fixed_suffix")
             exp = r58.check_encode(bytes([ver]) + k32(k) + suffix)
             ctx.count("wif.rt")
             ctx.seen("wif", exp)
